@@ -141,7 +141,7 @@ variable (cf : Config) (args : List Int) (pr : CProg)
 abbrev F0 : Nat := 5 * cf.w + cf.stackWords * cf.w + args.length * cf.w + cf.w
 
 /-- the words `try_fp` and `defeat` behind the entry frame, in programs with a `try/stop` -/
-def regsLen (w : Nat) (pr : CProg) : Nat := if hasStop pr.body then 2 * w else 0
+def regsLen (w : Nat) (pr : CProg) : Nat := if needsVD pr then 2 * w else 0
 
 theorem F0_args : (0 + args.length + 1) * cf.w ≤ F0 cf args := by
   unfold F0; simp only [Nat.zero_add, Nat.add_mul, Nat.one_mul]; omega
@@ -206,7 +206,7 @@ theorem initMem_arg (hw : 2 ≤ cf.w) (j : Nat) (hj : j < args.length) :
   exact this
 
 /-- programs with a `try/stop` start with `defeat = halt` -/
-theorem initMem_defeat (hw : 2 ≤ cf.w) (hs : hasStop pr.body = true) (hB : progLen cf.checked pr + stdlibLength < 256 ^ cf.w) :
+theorem initMem_defeat (hw : 2 ≤ cf.w) (hs : needsVD pr = true) (hB : progLen cf.checked pr + stdlibLength < 256 ^ cf.w) :
     (initMem cf args pr).readLE (F0 cf args + cf.w) cf.w = progLen cf.checked pr + off_halt := by
   have : (initMem cf args pr).readLE (F0 cf args + cf.w) cf.w = (initBase cf args.length pr).readLE (F0 cf args + cf.w) cf.w := by
     unfold initMem
@@ -247,7 +247,7 @@ def terminalEvs : Res → List Ev
 
 /-- the static conditions of `wfProg`, as the proofs use them -/
 theorem wfProg_parts {pr : CProg} (h : wfProg pr = true) :
-    pr.params.Nodup ∧ wfS pr.funs false pr.params pr.body = true ∧ youLevel (hasStop pr.body) pr.funs pr.body = true ∧ noFall pr.body = true ∧
+    pr.params.Nodup ∧ wfS pr.funs false pr.params pr.body = true ∧ youLevel (needsVD pr) pr.funs pr.body = true ∧ noFall pr.body = true ∧
     escFree false pr.body = true ∧ (pr.funs.map (·.name)).Nodup ∧
     ∀ fd ∈ pr.funs, fd.params.Nodup ∧ wfS pr.funs fd.dfn fd.params fd.body = true ∧
       (fd.dfn = false → plain pr.funs fd.body = true) ∧ (fd.dfn = true → noTry fd.body = true) := by
@@ -274,25 +274,45 @@ theorem core_fnsOK (cf : Config) (pr : CProg) (hwf : wfProg pr = true) :
     funcCode_len]
   exact this
 
+/-- what the level of the you function knows about the word `defeat` at the start: in programs that have it, it
+holds the address of `halt` -/
+def youWord (cf : Config) (args : List Int) (pr : CProg) : Option (Nat × Nat) :=
+  if needsVD pr then some (F0 cf args + cf.w, progLen cf.checked pr + off_halt) else none
+
 /-- frame facts of the initial memory -/
+theorem init_fr (cf : Config) (args : List Int) (pr : CProg) (hw : 2 ≤ cf.w) (hSE : F0 cf args < 256 ^ cf.w) :
+    Fr (coreProg cf pr) (initMem cf args pr) (F0 cf args) (cf.stackWords * cf.w + args.length * cf.w + cf.w) := by
+  have hF : F0 cf args = 5 * cf.w + cf.stackWords * cf.w + args.length * cf.w + cf.w := rfl
+  exact ⟨initMem_fp cf args pr hw hSE, initMem_ap cf args pr hw, by rw [initMem_size]; omega, hSE,
+    by show 5 * cf.w + _ = _; rw [hF]; omega⟩
+
 theorem init_inv (cf : Config) (args : List Int) (pr : CProg) (hw : 2 ≤ cf.w)
-    (hB : progLen cf.checked pr + stdlibLength < 256 ^ cf.w) (hSE : F0 cf args < 256 ^ cf.w)
+    (hB : progLen cf.checked pr + stdlibLength < 256 ^ cf.w) (hSE : F0 cf args + regsLen cf.w pr < 256 ^ cf.w)
     (hnd : pr.params.Nodup) (hlen : args.length = pr.params.length) :
-    SInv (coreProg cf pr) .you (paramGam cf.w (2 * cf.w) pr.params) (argEnv (256 ^ cf.w) pr.params args) (initMem cf args pr)
+    SInv (coreProg cf pr) (.you (youWord cf args pr)) (paramGam cf.w (2 * cf.w) pr.params) (argEnv (256 ^ cf.w) pr.params args) (initMem cf args pr)
       (F0 cf args) (cf.stackWords * cf.w + args.length * cf.w + cf.w) (entryOff cf.w pr.params)
       (progLen cf.checked pr + off_all_is_win) := by
-  have hF : F0 cf args = 5 * cf.w + cf.stackWords * cf.w + args.length * cf.w + cf.w := rfl
-  refine ⟨⟨initMem_fp cf args pr hw hSE, initMem_ap cf args pr hw, by rw [initMem_size]; omega, hSE,
-    by show 5 * cf.w + _ = _; rw [hF]; omega⟩, ?_, initMem_ra cf args pr hw hB, fun _ _ e => by cases e⟩
-  have hs := slots_of_reads cf.w (initMem cf args pr) (F0 cf args) args 0
-    (fun j hj => by rw [Nat.zero_add]; exact initMem_arg cf args pr hw j hj)
-  rw [Nat.zero_add] at hs
-  have := vars_slots cf.w (initMem cf args pr) (F0 cf args) pr.params (args.map (wrapI (256 ^ cf.w))) (2 * cf.w) hnd
-    (by simpa using hlen) (Nat.le_refl _) hs
-  have heo : 2 * cf.w + pr.params.length * cf.w - cf.w = entryOff cf.w pr.params := by
-    unfold entryOff; rw [Nat.add_mul, Nat.one_mul]; omega
-  rw [heo] at this
-  exact this
+  refine ⟨init_fr cf args pr hw (by omega), ?_, initMem_ra cf args pr hw hB, ?_⟩
+  · have hs := slots_of_reads cf.w (initMem cf args pr) (F0 cf args) args 0
+      (fun j hj => by rw [Nat.zero_add]; exact initMem_arg cf args pr hw j hj)
+    rw [Nat.zero_add] at hs
+    have := vars_slots cf.w (initMem cf args pr) (F0 cf args) pr.params (args.map (wrapI (256 ^ cf.w))) (2 * cf.w) hnd
+      (by simpa using hlen) (Nat.le_refl _) hs
+    have heo : 2 * cf.w + pr.params.length * cf.w - cf.w = entryOff cf.w pr.params := by
+      unfold entryOff; rw [Nat.add_mul, Nat.one_mul]; omega
+    rw [heo] at this
+    exact this
+  · intro a v e
+    cases hv : needsVD pr with
+    | false => simp [Md.word, youWord, hv] at e
+    | true =>
+      have hr : regsLen cf.w pr = 2 * cf.w := by simp [regsLen, hv]
+      simp only [Md.word, youWord, hv, if_true, Option.some.injEq, Prod.mk.injEq] at e
+      obtain ⟨rfl, rfl⟩ := e
+      refine ⟨Nat.le_refl _, by rw [initMem_size, hr]; show F0 cf args + cf.w + cf.w ≤ _; omega, by show F0 cf args + cf.w + cf.w < 256 ^ cf.w; omega,
+        initMem_defeat cf args pr hw hv hB, ?_⟩
+      show progLen cf.checked pr + off_halt < 256 ^ cf.w
+      simp [off_halt, off_all_is_win, stdlibLength] at *; omega
 
 /-- bytes between the bottom of the stack and the frame pointer of the entry point -/
 abbrev roomOf (cf : Config) (args : List Int) : Nat := cf.stackWords * cf.w + args.length * cf.w + cf.w
@@ -331,13 +351,19 @@ theorem core_correct (cf : Config) (args : List Int) (pr : CProg) (hw : 2 ≤ cf
     (entryOff cf.w pr.params) (argEnv (256 ^ cf.w) pr.params args) pr.body = some (env', tr, res) at hex
   obtain ⟨hnd, hwfb, hyl, hnf, hesc, _, _⟩ := wfProg_parts hwf
   have hSE0 : F0 cf args < 256 ^ cf.w := by omega
-  have hinv0 := init_inv cf args pr hw hB hSE0 hnd hlen
-  have hregs : hasStop pr.body = true → defeatAddr cf pr = F0 cf args + (coreProg cf pr).w ∧
-      F0 cf args + 2 * (coreProg cf pr).w ≤ (initMem cf args pr).size ∧ F0 cf args + 2 * (coreProg cf pr).w < 256 ^ (coreProg cf pr).w := by
+  have hinv0 := init_inv cf args pr hw hB hSE hnd hlen
+  have hdAe : defeatAddr cf pr = F0 cf args + cf.w := by unfold defeatAddr F0; rw [hlen]
+  have hregs : needsVD pr = true → defeatAddr cf pr = F0 cf args + (coreProg cf pr).w ∧
+      F0 cf args + 2 * (coreProg cf pr).w ≤ (initMem cf args pr).size ∧ F0 cf args + 2 * (coreProg cf pr).w < 256 ^ (coreProg cf pr).w ∧
+      Md.you (youWord cf args pr) = .you (some (defeatAddr cf pr, progLen cf.checked pr + off_halt)) := by
     intro hs
     have hr : regsLen cf.w pr = 2 * cf.w := by simp [regsLen, hs]
-    refine ⟨by show defeatAddr cf pr = F0 cf args + cf.w; unfold defeatAddr F0; rw [hlen], by rw [initMem_size, hr]; exact Nat.le_refl _, ?_⟩
+    refine ⟨hdAe, by rw [initMem_size, hr]; exact Nat.le_refl _, ?_, by simp [youWord, hs, hdAe]⟩
     show F0 cf args + 2 * cf.w < 256 ^ cf.w; omega
+  have hsf : needsVD pr = false → ∀ fd ∈ pr.funs, fd.dfn = false := by
+    intro hs fd hfd
+    simp only [needsVD, Bool.or_eq_false_iff, List.any_eq_false] at hs
+    simpa using hs.2 fd hfd
   have h64 := mul_w_lt_pow cf.w hw
   have hM := pow_ge2 cf.w hw
   have hF : F0 cf args = 5 * cf.w + cf.stackWords * cf.w + args.length * cf.w + cf.w := rfl
@@ -372,7 +398,7 @@ theorem core_correct (cf : Config) (args : List Int) (pr : CProg) (hw : 2 ≤ cf
         (entryOff cf.w pr.params) pr.body).length = funcLen cf.checked false pr.body := by
     rw [cS_len]; show 0 + prologueLen cf.checked + lenS cf.checked false pr.body = prologueLen cf.checked + lenS cf.checked false pr.body; omega
   have hbody := cS_ok (ck := cf.checked) lib fok fuel (F0 cf args) (cf.stackWords * cf.w + args.length * cf.w + cf.w)
-    (B + off_all_is_win) (by rw [hpw]; simp [off_all_is_win, stdlibLength] at *; omega) ⟨0, 0, false⟩ ⟨by show 0 < 256 ^ p.w; rw [hpw]; omega, by show 0 < 256 ^ p.w; rw [hpw]; omega⟩ .you (hasStop pr.body)
+    (B + off_all_is_win) (by rw [hpw]; simp [off_all_is_win, stdlibLength] at *; omega) ⟨0, 0, false⟩ ⟨by show 0 < 256 ^ p.w; rw [hpw]; omega, by show 0 < 256 ^ p.w; rw [hpw]; omega⟩ (.you (youWord cf args pr)) (needsVD pr) false
     pr.body (paramGam cf.w (2 * cf.w) pr.params) (argEnv (256 ^ cf.w) pr.params args) (0 + prologueLen cf.checked)
     (entryOff cf.w pr.params)
   rw [hpw] at hbody
@@ -380,7 +406,7 @@ theorem core_correct (cf : Config) (args : List Int) (pr : CProg) (hw : 2 ≤ cf
   have hnn : res ≠ .norm := exec_noFall _ _ _ _ _ _ _ _ _ _ _ _ hnf hex
   have hne := exec_noEsc _ _ _ _ _ _ _ _ _ _ _ _ hesc hex
   -- where the entry function can end: win, or the division_by_zero stub
-  have hsafe : ∀ st', Post p B (B + off_all_is_win) ⟨0, 0, false⟩ .you (paramGam cf.w (2 * cf.w) pr.params) env' (F0 cf args)
+  have hsafe : ∀ st', Post p B (B + off_all_is_win) ⟨0, 0, false⟩ (.you (youWord cf args pr)) (paramGam cf.w (2 * cf.w) pr.params) env' (F0 cf args)
       (cf.stackWords * cf.w + args.length * cf.w + cf.w) (entryOff cf.w pr.params)
       (0 + prologueLen cf.checked + (cS (cxOf p cf.checked B (defeatAddr cf pr)) (progFA cf.checked pr) ⟨0, 0, false⟩ (paramGam cf.w (2 * cf.w) pr.params)
         (0 + prologueLen cf.checked) (entryOff cf.w pr.params) pr.body).length) (initMem cf args pr) res st' →
@@ -400,7 +426,7 @@ theorem core_correct (cf : Config) (args : List Int) (pr : CProg) (hw : 2 ≤ cf
   obtain ⟨st', r, hpost⟩ := (hbody (initMem cf args pr) env' tr res hbodyP (by omega) hinv0
     (disj_paramGam cf.w pr.params (2 * cf.w) hnd)
     (by rw [map_fst_paramGam]; exact hwfb) hroom (by rw [heo]; omega) hex hfo
-    (Or.inr ⟨rfl, rfl, hyl, hregs, fun st' h => (hsafe st' h).1⟩)).2 (nd hnd')
+    (Or.inr ⟨⟨rfl, rfl, hsf⟩, rfl, hyl, hregs, fun st' h => (hsafe st' h).1⟩)).2 (nd hnd')
   obtain ⟨mEnd, rend⟩ := (hsafe st' hpost).2
   have rall := (hpro.trans r).trans rend
   have nh := tnt_never_halts lib mEnd
@@ -421,7 +447,7 @@ theorem core_overflow (cf : Config) (args : List Int) (pr : CProg) (hw : 2 ≤ c
       ¬ Halts (sphinx (coreProg cf pr)) (coreInit cf args pr) := by
   have lib := core_placed cf pr hw hB
   change cf.stackWords * cf.w + args.length * cf.w + cf.w < pkS cf.w (entryOff cf.w pr.params) pr.body at hsmall
-  have hinv0 := init_inv cf args pr hw hB hSE hnd hlen
+  have hfr0 := init_fr cf args pr hw hSE
   have hF : F0 cf args = 5 * cf.w + cf.stackWords * cf.w + args.length * cf.w + cf.w := rfl
   have hall : PlacedAt (coreProg cf pr) 0 (progCode cf pr) :=
     (placedAt_toArray_append cf.w (progCode cf pr) (stdlibCode cf.w (progLen cf.checked pr)) ⟨#[]⟩).1
@@ -431,7 +457,7 @@ theorem core_overflow (cf : Config) (args : List Int) (pr : CProg) (hw : 2 ≤ c
     hall.append.1
   have hfl : funcLen cf.checked false pr.body ≤ progLen cf.checked pr := by unfold progLen; omega
   obtain ⟨m1, r1⟩ := (prologue_ok (ck := cf.checked) lib (progFA cf.checked pr) 0 false pr.params pr.body (initMem cf args pr)
-    (F0 cf args) (cf.stackWords * cf.w + args.length * cf.w + cf.w) hinv0.fr hcodeP (by rw [funcCode_len]; show 0 + funcLen cf.checked false pr.body ≤ progLen cf.checked pr; omega)
+    (F0 cf args) (cf.stackWords * cf.w + args.length * cf.w + cf.w) hfr0 hcodeP (by rw [funcCode_len]; show 0 + funcLen cf.checked false pr.body ≤ progLen cf.checked pr; omega)
     hpkM).2 hck (by show F0 cf args - 5 * cf.w < pkS cf.w (entryOff cf.w pr.params) pr.body; rw [hF]; omega)
   have r := r1.trans (error_stub_reach lib m1).1
   have nh := tnt_never_halts lib m1
@@ -461,8 +487,8 @@ theorem core_frame_restored {p : Prog} {ck : Bool} {B dA : Nat} {fa : FAddr} {fn
     (hres : res = .norm ∨ res = .returned ∨ ∃ v, res = .retv v) :
     ∃ st', Reach (sphinx p) ⟨pc, m⟩ tr st' ∧ Keep p.w m st'.mem F ∧ st'.mem.readLE p.w p.w = F ∧
       (res = .norm → st'.pc = pc + (cS (cxOf p ck B dA) fa lp Γ pc o s).length) ∧ (res ≠ .norm → st'.pc = ra) := by
-  have hc := cS_ok lib fok fuel F D ra hra lp hlp .plain false s Γ env pc o m env' tr res hpl hB hinv hd (by rw [hvd]; exact hwf) hpk ho hex
-    (by rcases hres with h | h | ⟨v, h⟩ <;> subst h <;> trivial) (Or.inl ⟨(by intro h; cases h), (by intro h; rw [hvd] at h; cases h), hnt, Or.inl HaltW.plain⟩)
+  have hc := cS_ok lib fok fuel F D ra hra lp hlp .plain false false s Γ env pc o m env' tr res hpl hB hinv hd hwf hpk ho hex
+    (by rcases hres with h | h | ⟨v, h⟩ <;> subst h <;> trivial) (Or.inl ⟨rfl, ⟨(by intro h; rw [hvd] at h; cases h), (by intro h; cases h)⟩, hnt, Or.inl HaltW.plain⟩)
   obtain ⟨st', r, hp⟩ := hc.2 (nd (by rcases hres with h | h | ⟨v, h⟩ <;> subst h <;> simp))
   have hfp := hinv.fr.fp
   rcases hres with h | h | ⟨v, h⟩ <;> subst h <;> simp only [Post] at hp
